@@ -16,6 +16,8 @@ pub enum Kind {
     DescNoParams,
     Echo,
     EchoVariant,
+    /// a method without output parameters whose implementation replies (an empty reply object)
+    Ack,
     Fail,
     Stream0,
     Stream2,
@@ -32,7 +34,7 @@ pub enum Kind {
     Upgrade,
 }
 
-pub const KINDS: [Kind; 18] = [
+pub const KINDS: [Kind; 19] = [
     Kind::GetInfo,
     Kind::DescKnown,
     Kind::DescBuiltin,
@@ -40,6 +42,7 @@ pub const KINDS: [Kind; 18] = [
     Kind::DescNoParams,
     Kind::Echo,
     Kind::EchoVariant,
+    Kind::Ack,
     Kind::Fail,
     Kind::Stream0,
     Kind::Stream2,
@@ -108,6 +111,7 @@ impl Sym {
                 | Kind::DescBuiltin
                 | Kind::Echo
                 | Kind::EchoVariant
+                | Kind::Ack
                 | Kind::Big(_)
                 | Kind::Upgrade
         ) || (self.flag.more() && matches!(self.kind, Kind::Stream0 | Kind::Stream2))
@@ -124,7 +128,7 @@ pub fn token(i: usize) -> String {
     }
 }
 
-/// The C01 alphabet: 18 kinds x 4 flag combinations.
+/// The C01 alphabet: 19 kinds x 4 flag combinations.
 pub fn alphabet() -> Vec<Sym> {
     let mut v = vec![];
     for k in KINDS {
@@ -214,6 +218,7 @@ pub fn request(s: Sym, i: usize) -> Value {
             format!("{}.Echo", ["org.verif", "org.verif.test-2", "org.verif.Test"][i % 3]),
             Some(json!({"token": tok, "n": -(i as i64)})),
         ),
+        Kind::Ack => ("org.verif.test.Ack".into(), Some(json!({"token": tok}))),
         Kind::Fail => ("org.verif.test.Fail".into(), Some(json!({"token": tok}))),
         Kind::Stream0 => (
             "org.verif.test.Stream".into(),
@@ -377,6 +382,7 @@ pub fn expect(s: Sym, i: usize) -> Exp {
         ),
         Kind::Echo => Fin::Ok(json!({"token": tok, "n": i as i64})),
         Kind::EchoVariant => Fin::Ok(json!({"token": tok, "n": -(i as i64)})),
+        Kind::Ack => Fin::Ok(json!({})),
         Kind::Fail => Fin::Err("org.verif.test.Failed".into(), Some(json!({"token": tok}))),
         Kind::Stream0 => Fin::Ok(json!({"token": tok, "i": 0})),
         Kind::Stream2 => {
